@@ -12,6 +12,7 @@
 -/
 import QV.Proofs.WriterSession
 import QV.Proofs.NameDecode
+import QV.Proofs.NameRoundTrip
 
 namespace QV.C13
 open QV QV.Writer QV.ServerSafety
@@ -144,6 +145,19 @@ theorem C13_scan_correct {G : Nat → Prop} {oct : Bytes} {cur : Nat} {mode : CM
 theorem C13_written_names_denote (hint : Hint) (n : WName) (s : State) (h : WInv s) (hn : n.WF)
     (hh : Writer.HintOK s hint n) : NameSpec s n (writeHintedName hint n s) :=
   writeHintedName_spec hint n s h hn hh
+
+/-- **The round trip of one written name, through the independent decoder**, in every compression
+    mode: whatever `write_hinted_name` wrote for the name `n` at the cursor (all labels; some labels
+    and a pointer; a bare pointer — hinted or found by the scan), `specDecodeName`, run on the message
+    written so far from that position, yields a name with `n`'s number of labels that equals `n` up
+    to ASCII case, and octet for octet in `CasePreserving` and `Disabled` mode. -/
+theorem C13_written_name_round_trip (hint : Hint) (n : WName) (s : State) (h : WInv s) (hn : n.WF)
+    (hh : Writer.HintOK s hint n) (p : Option Prior) (hok : (writeHintedName hint n s).1 = .ok p) :
+    ∃ w k, Spec.specDecodeName
+        ((writeHintedName hint n s).2.octets.extract 0 (writeHintedName hint n s).2.cursor) s.cursor
+          = some (w, n.len, k) ∧
+      w.map lowerU8 = n.wire.map lowerU8 ∧ (s.mode ≠ .standard → w = n.wire) :=
+  writeHintedName_round_trip hint n s h hn hh p hok
 
 /-! ## which RDATA may be compressed (tie to the source: the table is *generated* from
     `Rdata::components` and the `components_as_*` constructors on every run) -/
